@@ -8,7 +8,7 @@ CONSTANTS
   PopenMayFail = {}
   PreFix = FALSE
   CoarseCancel = TRUE
-  Modes = {"wait", "nowait"}
+  Modes = {"wait"}
   Modes2 = {"nowait"}
   NeverExits = {j1}
 PROPERTIES ShutdownReturnsUnlessCbp WaitReturnsUnlessCbp TerminationUnlessCbp
